@@ -55,7 +55,9 @@ type varRunOpts struct {
 	AppendSNP  bool
 }
 
-func defaultVarRun(appendSNP bool) varRunOpts { return varRunOpts{Start: -1, End: -1, AppendSNP: appendSNP} }
+func defaultVarRun(appendSNP bool) varRunOpts {
+	return varRunOpts{Start: -1, End: -1, AppendSNP: appendSNP}
+}
 
 // runVariants runs `variants` (msa form) or `sam variants` (sam form) in-process.
 func runVariants(c varCase, r varRunOpts) (string, error) {
